@@ -15,6 +15,7 @@ requires a supported version, and a request whose SRV differs from expected_srv 
 Server.srv_value = long_term_key.srv_value().  (3) The reply states the version: on the non-Google arm make_srep adds VER =
 wire_bytes(version) and VERS = supported_versions_wire() (ascending, containing draft-13) to the message that is encoded and
 then signed.
+The scan over the offered versions is left only when the entries are exhausted or with the match (no early break on another condition).
 """
 NOT_DECIDED = "the other conditions of `always if` (size, framing, nonce) are C07's"
 TRUSTED = ["slice::chunks / Iterator::take semantics"]
@@ -142,6 +143,36 @@ def run(ctx):
         ie = iter_elem(W, x)
         oke = ie is not None and (ie["container"][0] == "arr" or values.contains(ie["container"], lambda s: s and s[0] == "arr"))
         ctx.check("version-scan", "match-is-supported-element", oke, "the version returned is an element of SUPPORTED_VERSIONS", "returned version is %s" % fmt(x), fn.loc(bb))
+    # the scan over the offered versions is left only when the list (or its first entries) is exhausted, or with the match: an early `break` on
+    # some other condition (entries assumed sorted, a first unknown entry, ..) hides a supported version that comes later among the first four
+    if chunks and somes:
+        wb_blocks = [bb for bb, t in fn.calls() if strip_generics(t["fn"].get("path", "")).endswith("Version::wire_bytes")]
+        outer = [l for l in fn.loops() if any(bb in l["body"] for bb in wb_blocks)]
+        if outer:
+            lp = max(outer, key=lambda l: len(l["body"]))
+            some_blocks = {bb for (bb, i, term) in somes}
+            for (s0, d0) in lp["exits"]:
+                if d0 in fn.diverging():
+                    continue
+                t0 = fn.blocks[s0].term
+                cond = ev.op(t0["op"], (s0, "term")) if t0["k"] == "switch" else None
+                exhausted = cond is not None and cond[0] == "discr" and is_call(values.strip_payload(cond[1])) and callee_name(values.strip_payload(cond[1])[1]) == "next"
+                # the exit that carries the match out: it reaches `return Some(..)` without coming back
+                seen_, stk_, hit = set(), [d0], False
+                while stk_:
+                    n = stk_.pop()
+                    if n in seen_ or n in lp["body"]:
+                        continue
+                    seen_.add(n)
+                    if n in some_blocks:
+                        hit = True
+                        continue
+                    stk_.extend(fn.succ(n))
+                with_match = hit and d0 in some_blocks
+                ctx.check("version-scan", "scan-left-only-when-exhausted-or-matched@%d" % s0, exhausted or with_match,
+                          "the scan loop is left by exhaustion of the entries or with the match",
+                          "the version scan can stop early (%s): a supported version later among the first four entries is not found" % (fmt(cond)[:120] if cond else "unconditional exit"),
+                          fn.loc(s0))
     nfun = 0
     if not somes:
         nfun = functional_scan(ctx, W, fn, ev, wire_w)
